@@ -5531,6 +5531,10 @@ evhttp_uri_join(const struct evhttp_uri *uri, char *buf, size_t limit)
 	}
 #ifndef _WIN32
 	if (uri->unixsocket) {
+		/* written between "unix:" and ":"; a socket path holding ':'
+		 * or '@' would be read back as something else */
+		if (strpbrk(uri->unixsocket, ":@"))
+			goto err;
 		has_authority = 1;
 		evbuffer_add(tmp, "//", 2);
 		if (uri->userinfo)
